@@ -270,7 +270,19 @@ def gen_opts(rng, allow=("repeat", "stop", "buffer", "j", "verbose", "shuffle"))
         o["shuffle_seed"] = rng.randint(0, 10 ** 6)
     if rng.random() < 0.5:
         o["argseed"] = rng.randint(0, 10 ** 6)
+    if rng.random() < 0.4:
+        # options that change nothing the properties speak about: colours and progress off/automatic, diff styles,
+        # secondary failures, slow-test threshold, deprecated no-ops, alternative spellings
+        o["decor"] = rng.sample(NEUTRAL_OPTIONS, rng.choice([1, 1, 2, 3]))
+        # (the three diff styles exclude each other: the runner refuses two of them)
+        diffs = [g for g in o["decor"] if g[0] in ("--udiff", "--ndiff", "--cdiff")]
+        o["decor"] = [g for g in o["decor"] if g not in diffs[1:]]
     return o
+
+
+NEUTRAL_OPTIONS = [["--no-color"], ["-C"], ["--auto-color"], ["--no-progress"], ["--auto-progress"], ["--slow-test", "0.5"],
+                   ["-1"], ["--show-secondary-failures"], ["--hide-secondary-failures"], ["--udiff"], ["--ndiff"], ["--cdiff"],
+                   ["--exit-with-status"], ["--require-unique"], ["--gc-after-test"], ["--slow-test=100"], ["--progress"], ["-p"]]
 
 
 # -------------------------------------------------------------------------------------------
@@ -311,9 +323,9 @@ def cli_args(d, o, extra=()):
     if o.get("verbose"):
         groups.append(["-" + "v" * o["verbose"]])
     if o.get("repeat", 1) != 1:
-        groups.append(opt("--repeat", o["repeat"]))
+        groups.append(opt("--repeat", o["repeat"]) if rnd is None or rnd.random() < 0.7 else ["-N", str(o["repeat"])])
     if o.get("stopOnError"):
-        groups.append(["-x"] if rnd is None or rnd.random() < 0.5 else ["--stop-on-error"])
+        groups.append(["-x"] if rnd is None or rnd.random() < 0.5 else [rnd.choice(["--stop-on-error", "--stop"])])
     if o.get("buffer"):
         groups.append(["--buffer"])
     if o.get("color"):
@@ -342,6 +354,8 @@ def cli_args(d, o, extra=()):
     if o.get("pkgpath"):
         # a directory under the search path that is also mapped into its package by --package-path
         groups.append(["--package-path", os.path.join(d, o["pkgpath"]), o["pkgpath"]])
+    for g_ in o.get("decor", []):
+        groups.append(list(g_))
     if o.get("list"):
         groups.append(["--list-tests"])
     if o.get("xml"):
